@@ -4,6 +4,7 @@ import json
 import os
 from fractions import Fraction
 
+import csvtext
 from common import standard_prologue, run_sharded, enc, dec, HX, DRV, VERIF
 from impcommon import (D, Conv, Rule, sx, opt, yq, split_fields, parse_import, canon_txn, txns_close, parse_proc_impl,
                        parse_proc_model, bal_nonzero, fund_text, date_sx, rules_sx, rules_yaml, caps_table, group3, sx_parse)
@@ -54,9 +55,46 @@ CLAIM = {
              "cli/src/import/csv.rs by running generated CSV x configuration cases through the real importer and diffing "
              "the transaction trees, and the property's statement (sign, counter-posting, rate placement, order, acceptance "
              "by the real report::process and final balance) is evaluated on the real output by a Python oracle that does "
-             "not use the model."),
-    "note": "CSV/YAML decoding, chrono date parsing and the regex engine are parameters of the model (decoded by the real "
-            "libraries in the harness); number cells and templates are decoded by the MODEL (the driver no longer reads the "
+             "not use the model. "
+             "The csv crate's record reader is inside the model as well (Model/CsvText.lean: csv-core's NFA transition function under "
+             "the options csv::import sets - flexible, delimiter = first byte of format.delimiter, quote with doubling, CR / LF / CRLF "
+             "line ends, header row -, the epsilon closure of build_dfa, transition_final, strip_utf8_bom, the line counter and the "
+             "Position a record is stamped with, read_line skipping of format.skip.head lines, per-field UTF-8 validation of "
+             "StringRecord; csvImportText = csv::import from the BYTES of the file, by definition csvImport on the decoded header and "
+             "records when they all decode). Proved: C16_csv_reader_total (from every state of the DFA table every byte is consumed "
+             "and leads to a table state: the reader is a fold over the bytes, no fuel, no error, no panic of its own), "
+             "C16_csv_import_total (for EVERY byte string, configuration and decoder environment the import model terminates without fuel "
+             "and its only reachable panic is rust_decimal's division by zero under compute / price_of_secondary), "
+             "C16_csv_text_shape (the import from bytes is IO (undecodable skipped line), CSV (undecodable header) or the importer on "
+             "the decoded records in front of the first undecodable one), C16_csv_read_write (reading the canonical writer's text - a "
+             "cell quoted iff it contains delimiter, quote, CR or LF; quotes doubled - gives back exactly the rows, each stamped with "
+             "the line it starts on, for a delimiter that is not quote / CR / LF, rows that are non-empty and not a lone empty cell, "
+             "and a text without leading byte order mark; C16_csv_read_write_conditions_needed: each side condition refuted by a "
+             "witness), C16_csv_skip_head (skip.head = n consumes exactly n physical lines, blank or not), C16_import_file (the bridge: "
+             "csvImportText on skipped lines ++ writeCsv (header :: rows) IS csvImport on header and rows - every list of records is the "
+             "reading of some file; C16_import_file_line_ends: the same, and the reader's round trip, for lines ending in LF, CRLF or CR "
+             "with or without a line end after the last row), C16_order_file and C16_sign_file (C16_order / C16_sign restated for the file), C16_count_file (for "
+             "ANY file: a successful import yields one transaction per record - as the reader splits the text - with a non-empty date "
+             "cell), C16_short_record_line (the line `csv record length too short at line N` names = 1 + the LF bytes of the CSV part in "
+             "front of the record, skipped lines not counted; C16_crlf_line_lags: in CRLF files it names the line before the record), "
+             "C16_field_boundaries (outside quotes the delimiter always splits, inside a quoted cell never; a quoted cell is one cell "
+             "whatever it contains), C16_csv_normal_form (with the crate writer's special case - a lone empty field written as two quotes - "
+             "every list of non-empty records is the reading of its written text under each of the three line ends, the reader never "
+             "yields a record without fields, hence rewriting ANY file as the canonical text of its own reading does not change what is "
+             "read), records_nonempty, stamps_bounds (lines named start at 1, never decrease, at most 1 + number of LF). "
+             "Tied to the real crate on every run: every csv-main / csv-malformed case once more with the model splitting the file text "
+             "itself (cells and import result must coincide), plus stream csv-text (hostile byte strings for the reader - exhaustive "
+             "over an 11-symbol alphabet incl. quote, CR, LF, TAB, a two-byte character and a lone 0xFF, random to 40 symbols, "
+             "statements with hostile cells, 0-3 skipped lines, five delimiters, BOM - real csv::import on the bytes vs the model: cells, "
+             "the line of every record, import result, the too-short message) and an independent Python splitter for the RFC-4180 "
+             "subset as the oracle. Not proved: buffer-boundary effects (BOM split across the 8 KiB buffer) are outside the model; the "
+             "line stamps of the round trip are given exactly for LF-terminated text only (for CRLF / CR the general bounds and the "
+             "witness apply); non-canonical texts (stray quotes, text after a closing quote, blank lines) are covered by the general "
+             "theorems (totality, count, bounds, field boundaries) and by the correspondence stream, not by a round trip."),
+    "note": "YAML decoding, chrono date parsing and the regex engine are parameters of the model (decoded by the real "
+            "libraries in the harness); the csv crate's record splitting is modelled (Model/CsvText.lean) and compared on every case, "
+            "the main driver mode still takes the crate's cells while `drv csvtext` splits the text itself; okane's CLI decodes the "
+            "file with encoding_rs_io before csv::import, so the invalid-UTF-8 branches are reachable through the library entry only; number cells and templates are decoded by the MODEL (the driver no longer reads the "
             "harness's decimal table; templates travel as text) and compared on their own in the csv-cells stream (real "
             "parser reached through TryFrom<&str> for syntax::expr::Amount; Template::from_str is pub(crate) and is reached "
             "through import::import with the field position replaced); rust_decimal is modelled exactly inside 96 bits / 28 places; "
@@ -78,7 +116,20 @@ THEOREMS = ["Okane.Import.C16_sign_credit_debit", "Okane.Import.C16_sign_amount"
             "Okane.Import.C16_template_rejects", "Okane.Import.Cells.C16_cell_complete", "Okane.Import.Cells.C16_cell_reject",
             "Okane.Import.Cells.C16_cell_value", "Okane.Import.Cells.templateParse_total",
             "Okane.Import.Cells.C16_template_print_parse", "Okane.Import.Cells.C16_template_parse_canonical",
-            "Okane.Import.Cells.C16_template_print_id_false"]
+            "Okane.Import.Cells.C16_template_print_id_false",
+            "Okane.Import.C16_csv_reader_total", "Okane.Import.C16_csv_text_shape", "Okane.Import.C16_csv_read_write",
+            "Okane.Import.C16_csv_read_write_conditions_needed", "Okane.Import.C16_csv_skip_head", "Okane.Import.C16_import_file",
+            "Okane.Import.C16_order_file", "Okane.Import.C16_sign_file", "Okane.Import.C16_count_file",
+            "Okane.Import.C16_short_record_line", "Okane.Import.C16_crlf_line_lags", "Okane.Import.C16_field_boundaries",
+            "Okane.Import.CsvText.readRecordsPos_write", "Okane.Import.CsvText.run_line", "Okane.Import.CsvText.records_nonempty",
+            "Okane.Import.CsvText.stamps_bounds", "Okane.Import.CsvText.decodeUtf8_utf8", "Okane.Import.CsvText.decodeUtf8_some",
+            "Okane.Import.CsvText.csvRows_length", "Okane.Import.CsvText.csvImportText_write",
+            "Okane.Import.C16_csv_import_total", "Okane.Import.C16_import_file_line_ends",
+            "Okane.Import.CsvText.readRecords_writeWith", "Okane.Import.CsvText.csvImportText_total",
+            "Okane.Import.CsvText.dfaStep_consumes", "Okane.Import.CsvText.skipHead_lines",
+            "Okane.Import.CsvText.delim_outside_quotes_splits", "Okane.Import.CsvText.delim_inside_quotes_kept",
+            "Okane.Import.CsvText.quoted_field_one_cell", "Okane.Import.CsvText.shortRecord_withLines",
+            "Okane.Import.C16_csv_normal_form", "Okane.Import.CsvText.readRecords_writeQ", "Okane.Import.CsvText.readRecords_normal"]
 
 ACCOUNT_ASSET = "Assets:Bank"
 ACCOUNT_LIAB = "Liabilities:Card"
@@ -1032,6 +1083,8 @@ def run(chk):
         impl_fields.append(f)
         drv_lines.append(drv_line(c, cfg_sx, f, fund_sx))
     model = run_sharded(DRV, ["c16"], drv_lines)
+    # the same cases once more with the MODEL splitting the file text itself (Model/CsvText.lean), see gen/csvtext.py
+    csvtext.check_main(chk, meta, impl_fields, drv_lines, model)
     chk.streams["csv-main"] = len(cases)
     chk.streams["csv-malformed"] = len(mal)
     for (c, yaml, text, cfg_sx, fund, fund_sx), f, mline, dline in zip(meta, impl_fields, model, drv_lines):
@@ -1109,6 +1162,8 @@ def run(chk):
         except Exception:  # noqa
             pass
     run_cells(chk, main_cells)
+    # ---------------- csv-text: the record reader on hostile bytes (real importer on the bytes vs the model from the bytes)
+    csvtext.run_stream(chk, 1500 if chk.tier == "quick" else 30000)
     for i in (0, len(cases) // 2, len(cases) - 1):
         c, yaml, text, cfg_sx, fund, fund_sx = meta[i]
         chk.sample({"config_yaml": yaml, "csv": text, "impl_import": impl_fields[i].get("import", "")[:600],
